@@ -108,6 +108,15 @@ def s_min2(a, b):
     return SV(z3.If(_z(a) <= _z(b), _z(a), _z(b)), bor(_bad(a), _bad(b)))
 
 
+def s_div(a, b):
+    """division with IEEE semantics for concrete zero divisors (NaN/inf -> bad)"""
+    if not _sym(a) and not _sym(b):
+        if b == 0:
+            return SV(z3.RealVal(0), z3.BoolVal(True))
+        return a / b
+    return a / b
+
+
 def s_isfinite(v):
     if isinstance(v, SV):
         return SB(z3.Not(badz(v)))
@@ -203,6 +212,7 @@ v_abs = _vec(s_abs)
 v_max = _vec(s_max2, 2)
 v_min = _vec(s_min2, 2)
 v_ite = _vec(s_ite, 3)
+v_div = _vec(s_div, 2)
 v_isfinite = _vec(s_isfinite)
 v_isnan = _vec(s_isnan)
 
@@ -406,6 +416,12 @@ class SArr(_np.ndarray):
             if ufunc in (_np.logical_or, _np.logical_and):
                 g = r_any if ufunc is _np.logical_or else r_all
                 return g(inputs[0], axis=kwargs.get("axis", 0))
+        if ufunc is _np.true_divide and method == "__call__":
+            r = v_div(inputs[0], inputs[1])
+            if out is not None:
+                _np.ndarray.__setitem__(out[0], Ellipsis, _plain(_obj(r)))
+                return out[0]
+            return r
         if ufunc not in _PASS_UFUNCS:
             raise Unsupported("numpy ufunc %s.%s on a symbolic array" % (ufunc.__name__, method))
         ins = tuple(_plain(i) for i in inputs)
@@ -449,8 +465,21 @@ class SArr(_np.ndarray):
         return NP.sqrt(NP.var(self, axis=axis, ddof=ddof, keepdims=keepdims))
 
     def astype(self, dtype, *a, **k):
-        if dtype in (float, _np.float64, object, "float64", "float", _np.float32):
-            return self.copy()
+        if isinstance(dtype, type) and issubclass(dtype, float):
+            dtype = float
+        elif isinstance(dtype, type) and issubclass(dtype, int) and dtype is not bool:
+            dtype = int
+        if dtype in (float, _np.float64, object, "float64", "float", _np.float32, int, _np.int64, "int"):
+            r = self.copy()
+            if any(isinstance(x, SB) for x in r.flat):
+                for idx in _np.ndindex(*r.shape):
+                    x = _np.ndarray.__getitem__(r, idx)
+                    if isinstance(x, SB):
+                        _np.ndarray.__setitem__(r, idx, s_ite(x, 1, 0))
+                return r
+            if dtype in (int, _np.int64, "int"):
+                return _np.ndarray.astype(self, dtype, *a, **k)
+            return r
         return _np.ndarray.astype(self, dtype, *a, **k)
 
     def __getitem__(self, key):
